@@ -98,7 +98,9 @@ def make_sig(rng, logic, nvars=None, namer=None, rich=True):
         sig.add_const(nm("b", i), "Bool", via_const=rng.random() < 0.2)
     for s in L["arith"]:
         k = nvars or rng.randint(2, 4)
-        pref = "x" if s == "Real" else "i"
+        # NB: not "x": get-model registers formal arguments x<k> in the symbol table (a C04 finding);
+        # only C04's generator uses x-names on purpose
+        pref = "r" if s == "Real" else "i"
         for i in range(k):
             sig.add_const(nm(pref, i), s)
     usorts = []
@@ -407,7 +409,7 @@ class TermGen:
         if r < 0.76:
             return T("or", tuple(self.boolean(d - 1) for _ in range(rng.choice([2, 2, 3]))))
         if r < 0.81:
-            return T("=>", tuple(self.boolean(d - 1) for _ in range(rng.choice([2, 2, 3]))))
+            return T("=>", (self.boolean(d - 1), self.boolean(d - 1)))   # n-ary => / xor are rejected by opensmt
         if r < 0.85:
             return T("xor", (self.boolean(d - 1), self.boolean(d - 1)))
         if r < 0.89:
@@ -652,8 +654,12 @@ class ScriptGen:
         c = {"k": "define-fun", "name": name, "params": params, "ret": "Bool", "body": body}
         return c
 
-    def history(self, ncmds, p=None, queries=()):
-        """Random push/pop/assert/check history. queries: kinds of get-* to add after checks."""
+    def history(self, ncmds, p=None, queries=(), query_fn=None, name_p=0.0):
+        """Random push/pop/assert/check history.
+        queries: kinds of get-* added after every check-sat;
+        query_fn(rng, names_in_scope) -> extra commands after a check-sat;
+        name_p: probability that an assertion is named at top level."""
+        from .terms import strip_named, names_in
         rng = self.rng
         pr = dict(assert_=0.45, push=0.15, pop=0.12, check=0.22, define=0.06, reassert=0.1, maxdepth=4)
         if p:
@@ -663,17 +669,29 @@ class ScriptGen:
         popped = []       # formulas from popped levels (for re-assertion)
         level_asserts = [[]]
         level_defs = [[]]
+        level_names = [[]]
         since_check = 0
+
+        def after_check():
+            for q in queries:
+                cmds.append({"k": q})
+            if query_fn:
+                names = [n for lv in level_names for n in lv]
+                cmds.extend(query_fn(rng, names))
+
         for _ in range(ncmds):
             r = rng.random()
             if r < pr["assert_"]:
                 if popped and rng.random() < pr["reassert"]:
                     t = rng.choice(popped)
+                    if rng.random() < name_p:
+                        t = T("!", (t,), "Bool", self.tg.fresh_name())
                     c = {"k": "assert", "term": t}
                 else:
-                    c = self.assertion()
+                    c = self.assertion(named=self.tg.fresh_name() if rng.random() < name_p else None)
                 cmds.append(c)
                 level_asserts[-1].append(c["term"])
+                level_names[-1] += [n for n, _ in names_in(c["term"])]
                 since_check += 1
             elif r < pr["assert_"] + pr["push"]:
                 if depth < pr["maxdepth"]:
@@ -682,15 +700,16 @@ class ScriptGen:
                     for _ in range(n):
                         level_asserts.append([])
                         level_defs.append([])
+                        level_names.append([])
                     depth += n
             elif r < pr["assert_"] + pr["push"] + pr["pop"]:
                 if depth > 0:
                     n = 1 if rng.random() < 0.8 else rng.randint(1, depth)
                     cmds.append({"k": "pop", "n": n})
                     for _ in range(n):
-                        from .terms import strip_named
                         popped += [strip_named(t) for t in level_asserts.pop()]
                         gone = level_defs.pop()
+                        level_names.pop()
                         self.tg.defs = [f for f in self.tg.defs if f[0] not in gone]
                     depth -= n
             elif r < pr["assert_"] + pr["push"] + pr["pop"] + pr["define"]:
@@ -701,10 +720,8 @@ class ScriptGen:
             else:
                 cmds.append({"k": "check-sat"})
                 since_check = 0
-                for q in queries:
-                    cmds.append({"k": q})
+                after_check()
         if since_check or not any(c["k"] == "check-sat" for c in cmds):
             cmds.append({"k": "check-sat"})
-            for q in queries:
-                cmds.append({"k": q})
+            after_check()
         return cmds
